@@ -50,11 +50,14 @@ theorem driver_seq_product (x : Int) (b : Nat) (stream : NTV.Draw.Stream) (fuel 
     (h : factorizeSeq x b stream fuel .dev = .ok result count rest) : prodPairs result = x :=
   factorizeSeq_product x b stream fuel result count rest h
 
-/-- Batched driver (dev profile), exactness. -/
-theorem driver_par_product (x : Int) (b : Nat) (stream : NTV.Draw.Stream) (fuel : Nat)
+/-- Batched driver (dev profile), exactness. This driver calls `select_b(&now)` for every work item it
+hands to ECM: `b` is select_b(x) and `btab` lists select_b(d) for the other items above 1000; the
+statement holds for every `b` and every table (the bound never matters for correctness; an item
+missing from the table ends the run as `.inconclusive`, never with a value). -/
+theorem driver_par_product (x : Int) (b : Nat) (btab : List (Int × Nat)) (stream : NTV.Draw.Stream) (fuel : Nat)
     (result : List (Int × Nat)) (count : Nat) (rest : NTV.Draw.Stream)
-    (h : factorizePar x b stream fuel .dev = .ok result count rest) : prodPairs result = x :=
-  factorizePar_product x b stream fuel result count rest h
+    (h : factorizePar x b btab stream fuel .dev = .ok result count rest) : prodPairs result = x :=
+  factorizePar_product x b btab stream fuel result count rest h
 
 /-- Dev profile: the two stage-2 starting exponents are computed without overflow/underflow for every
 B1 < 2^64 − 1 (false for the earlier `(b1 + 1) / 6 * 6 - 1` at every B1 < 5). -/
@@ -79,7 +82,10 @@ example : stage2Inits .dev 4 = .ok (1, 5) := by decide
 /-! ## The work-stack drivers: product (both profiles), sortedness, provenance of the entries, uniqueness
 
 `factorizeSeq` = `ecm::factorize_verbose`, `factorizePar` = `ecm_parallel::factorize_verbose` (what
-`rfactor` calls). All statements are about runs that return (`.ok result count rest`): termination of
+`rfactor` calls). The sequential driver uses one bound `b = select_b(x)` for the whole run; the batched
+driver uses `select_b(&now)` per work item (`parBsel x b btab`: 4 for now ≤ 1000, `b` for now = x, else
+the table `btab`). Every statement about `factorizePar` is for every `b` and every `btab`.
+All statements are about runs that return (`.ok result count rest`): termination of
 the curve loop is probabilistic and is not a theorem.
 
 Why the earlier product theorems say `.dev`: multiplicities are `u64`. With overflow checks a wrapped
@@ -108,82 +114,82 @@ every `x < 2^(2^64)`, every B1, every stream of draws. -/
 theorem driver_seq_product_release (x : Int) (hx : x < 2 ^ two64) (b : Nat) (stream : NTV.Draw.Stream)
     (fuel : Nat) (result : List (Int × Nat)) (count : Nat) (rest : NTV.Draw.Stream)
     (h : factorizeSeq x b stream fuel .release = .ok result count rest) : prodPairs result = x :=
-  (factorizeWith_arith _ (seq_hE .release) x b stream fuel .release (Or.inr hx) result count rest h).1
+  (factorizeWith_arith _ (seq_hE .release) x _ stream fuel .release (Or.inr hx) result count rest h).1
 
-/-- Batched driver, **release** profile, exactness (same hypothesis). -/
-theorem driver_par_product_release (x : Int) (hx : x < 2 ^ two64) (b : Nat) (stream : NTV.Draw.Stream)
+/-- Batched driver, **release** profile, exactness (same hypothesis; every B1 and every table of per-item bounds). -/
+theorem driver_par_product_release (x : Int) (hx : x < 2 ^ two64) (b : Nat) (btab : List (Int × Nat)) (stream : NTV.Draw.Stream)
     (fuel : Nat) (result : List (Int × Nat)) (count : Nat) (rest : NTV.Draw.Stream)
-    (h : factorizePar x b stream fuel .release = .ok result count rest) : prodPairs result = x :=
-  (factorizeWith_arith _ (par_hE .release) x b stream fuel .release (Or.inr hx) result count rest h).1
+    (h : factorizePar x b btab stream fuel .release = .ok result count rest) : prodPairs result = x :=
+  (factorizeWith_arith _ (par_hE .release) x _ stream fuel .release (Or.inr hx) result count rest h).1
 
 /-- The hypothesis `x < 2^(2^64)` of the release theorems is needed, and the property "the product is
 x" is **false in release at x = 2^(2^64)**: for every B1, every stream and every fuel ≥ 2 both drivers
 find the perfect power `2^(2^64)`, compute the multiplicity `1 * 2^64 mod 2^64 = 0` and return
 `[(2, 0)]`, whose product is 1. (In dev the same run panics with "overflow".) -/
-theorem release_wrap_witness (b : Nat) (stream : NTV.Draw.Stream) (fuel : Nat) :
+theorem release_wrap_witness (b : Nat) (btab : List (Int × Nat)) (stream : NTV.Draw.Stream) (fuel : Nat) :
     factorizeSeq (((2 ^ two64 : Nat)) : Int) b stream (fuel + 2) .release = .ok [(2, 0)] 0 stream ∧
-    factorizePar (((2 ^ two64 : Nat)) : Int) b stream (fuel + 2) .release = .ok [(2, 0)] 0 stream ∧
+    factorizePar (((2 ^ two64 : Nat)) : Int) b btab stream (fuel + 2) .release = .ok [(2, 0)] 0 stream ∧
     prodPairs [(2, 0)] ≠ (((2 ^ two64 : Nat)) : Int) :=
-  ⟨factorizeWith_release_wrap _ b stream fuel, factorizeWith_release_wrap _ b stream fuel, wrap_product_ne⟩
+  ⟨factorizeWith_release_wrap _ _ stream fuel, factorizeWith_release_wrap _ _ stream fuel, wrap_product_ne⟩
 
 /-- **Shape of every returned result** (either driver, either profile): x ≥ 1, the list is strictly
 increasing in the first component; and when no multiplicity can wrap (dev, or x < 2^(2^64)) every
 entry is ≥ 2 with exponent ≥ 1. -/
-theorem driver_sorted (x : Int) (b : Nat) (stream : NTV.Draw.Stream) (fuel : Nat) (prof : Profile)
+theorem driver_sorted (x : Int) (b : Nat) (btab : List (Int × Nat)) (stream : NTV.Draw.Stream) (fuel : Nat) (prof : Profile)
     (result : List (Int × Nat)) (count : Nat) (rest : NTV.Draw.Stream)
     (h : factorizeSeq x b stream fuel prof = .ok result count rest ∨
-         factorizePar x b stream fuel prof = .ok result count rest) :
+         factorizePar x b btab stream fuel prof = .ok result count rest) :
     1 ≤ x ∧ result.Pairwise (fun p q => p.1 < q.1) ∧
       (prof = .dev ∨ x < 2 ^ two64 → ∀ pe ∈ result, 2 ≤ pe.1 ∧ 1 ≤ pe.2) := by
   rcases h with h | h
-  · obtain ⟨h1, h2, _, _⟩ := factorizeWith_structure _ (seq_hS prof) x b stream fuel prof result count rest h
-    exact ⟨h1, h2, fun hnw => (factorizeWith_arith _ (seq_hE prof) x b stream fuel prof hnw result count rest h).2⟩
-  · obtain ⟨h1, h2, _, _⟩ := factorizeWith_structure _ (par_hS prof) x b stream fuel prof result count rest h
-    exact ⟨h1, h2, fun hnw => (factorizeWith_arith _ (par_hE prof) x b stream fuel prof hnw result count rest h).2⟩
+  · obtain ⟨h1, h2, _, _⟩ := factorizeWith_structure _ (seq_hS prof) x _ stream fuel prof result count rest h
+    exact ⟨h1, h2, fun hnw => (factorizeWith_arith _ (seq_hE prof) x _ stream fuel prof hnw result count rest h).2⟩
+  · obtain ⟨h1, h2, _, _⟩ := factorizeWith_structure _ (par_hS prof) x _ stream fuel prof result count rest h
+    exact ⟨h1, h2, fun hnw => (factorizeWith_arith _ (par_hE prof) x _ stream fuel prof hnw result count rest h).2⟩
 
 /-- x = 1: both drivers return the empty list after one iteration, without drawing anything
 (this one *is* a termination statement: any fuel ≥ 1 suffices). -/
-theorem driver_one (b : Nat) (stream : NTV.Draw.Stream) (fuel : Nat) (prof : Profile) :
+theorem driver_one (b : Nat) (btab : List (Int × Nat)) (stream : NTV.Draw.Stream) (fuel : Nat) (prof : Profile) :
     factorizeSeq 1 b stream (fuel + 1) prof = .ok [] 0 stream ∧
-    factorizePar 1 b stream (fuel + 1) prof = .ok [] 0 stream :=
-  ⟨factorizeWith_one _ b stream fuel prof, factorizeWith_one _ b stream fuel prof⟩
+    factorizePar 1 b btab stream (fuel + 1) prof = .ok [] 0 stream :=
+  ⟨factorizeWith_one _ _ stream fuel prof, factorizeWith_one _ _ stream fuel prof⟩
 
 /-- x ≤ 0: both drivers take the documented `panic!("x <= 0")`, in both profiles. -/
-theorem driver_nonpos (x : Int) (hx : x ≤ 0) (b : Nat) (stream : NTV.Draw.Stream) (fuel : Nat) (prof : Profile) :
-    factorizeSeq x b stream fuel prof = .panic "other" ∧ factorizePar x b stream fuel prof = .panic "other" :=
-  ⟨factorizeWith_nonpos _ x hx b stream fuel prof, factorizeWith_nonpos _ x hx b stream fuel prof⟩
+theorem driver_nonpos (x : Int) (hx : x ≤ 0) (b : Nat) (btab : List (Int × Nat)) (stream : NTV.Draw.Stream) (fuel : Nat) (prof : Profile) :
+    factorizeSeq x b stream fuel prof = .panic "other" ∧ factorizePar x b btab stream fuel prof = .panic "other" :=
+  ⟨factorizeWith_nonpos _ x hx _ stream fuel prof, factorizeWith_nonpos _ x hx _ stream fuel prof⟩
 
 /-- **Provenance of the entries** (either driver, either profile): every returned p was accepted by
 the primality test reading a segment `s₁ … s₂` of the draw stream of the run (s₁ a suffix of the
 input stream, s₂ what the test left); the unconsumed stream `rest` is a suffix of the input. -/
-theorem driver_entries_accepted (x : Int) (b : Nat) (stream : NTV.Draw.Stream) (fuel : Nat) (prof : Profile)
+theorem driver_entries_accepted (x : Int) (b : Nat) (btab : List (Int × Nat)) (stream : NTV.Draw.Stream) (fuel : Nat) (prof : Profile)
     (result : List (Int × Nat)) (count : Nat) (rest : NTV.Draw.Stream)
     (h : factorizeSeq x b stream fuel prof = .ok result count rest ∨
-         factorizePar x b stream fuel prof = .ok result count rest) :
+         factorizePar x b btab stream fuel prof = .ok result count rest) :
     rest <:+ stream ∧
     ∀ pe ∈ result, ∃ s₁ s₂ : NTV.Draw.Stream, s₁ <:+ stream ∧ s₂ <:+ s₁ ∧
       NTV.Prime.isPrimeS pe.1 s₁ = some (true, s₂) := by
   rcases h with h | h
-  · obtain ⟨_, _, h3, h4⟩ := factorizeWith_structure _ (seq_hS prof) x b stream fuel prof result count rest h
+  · obtain ⟨_, _, h3, h4⟩ := factorizeWith_structure _ (seq_hS prof) x _ stream fuel prof result count rest h
     exact ⟨h3, h4⟩
-  · obtain ⟨_, _, h3, h4⟩ := factorizeWith_structure _ (par_hS prof) x b stream fuel prof result count rest h
+  · obtain ⟨_, _, h3, h4⟩ := factorizeWith_structure _ (par_hS prof) x _ stream fuel prof result count rest h
     exact ⟨h3, h4⟩
 
 /-- **Uniqueness, given prime entries** (either driver; dev, or release with x < 2^(2^64)): if the
 returned first components are prime, the result is THE prime factorisation of x — read over ℕ it is
 the list computed by trial division (`trial_division_entries`: exactly the `(p, v_p(x))`). -/
-theorem driver_unique_of_prime_entries (x : Int) (b : Nat) (stream : NTV.Draw.Stream) (fuel : Nat)
+theorem driver_unique_of_prime_entries (x : Int) (b : Nat) (btab : List (Int × Nat)) (stream : NTV.Draw.Stream) (fuel : Nat)
     (prof : Profile) (hnw : prof = .dev ∨ x < 2 ^ two64)
     (result : List (Int × Nat)) (count : Nat) (rest : NTV.Draw.Stream)
     (h : factorizeSeq x b stream fuel prof = .ok result count rest ∨
-         factorizePar x b stream fuel prof = .ok result count rest)
+         factorizePar x b btab stream fuel prof = .ok result count rest)
     (hprime : ∀ pe ∈ result, Nat.Prime pe.1.toNat) :
     result.map (fun pe => (pe.1.toNat, pe.2)) = NTV.Trial.factorize x.toNat := by
-  obtain ⟨hx, hsorted, hge⟩ := driver_sorted x b stream fuel prof result count rest h
+  obtain ⟨hx, hsorted, hge⟩ := driver_sorted x b btab stream fuel prof result count rest h
   have hprod : prodPairs result = x := by
     rcases h with h | h
-    · exact (factorizeWith_arith _ (seq_hE prof) x b stream fuel prof hnw result count rest h).1
-    · exact (factorizeWith_arith _ (par_hE prof) x b stream fuel prof hnw result count rest h).1
+    · exact (factorizeWith_arith _ (seq_hE prof) x _ stream fuel prof hnw result count rest h).1
+    · exact (factorizeWith_arith _ (par_hE prof) x _ stream fuel prof hnw result count rest h).1
   exact result_eq_factorize x hx result hprod hsorted (hge hnw) hprime
 
 /-- **Uniqueness, given sound tests**: the only way a returned run can differ from the prime
@@ -191,17 +197,17 @@ factorisation is a wrong `true` of Miller–Rabin on one of the returned entries
 of a returned entry on a segment of the run's stream was correct, the result is the prime
 factorisation of x. (That Miller–Rabin can accept a composite on an adversarial stream is a recorded
 finding: on the all-zero stream every base is 1 and every odd n < 2^32 passes.) -/
-theorem driver_unique_of_sound_tests (x : Int) (b : Nat) (stream : NTV.Draw.Stream) (fuel : Nat)
+theorem driver_unique_of_sound_tests (x : Int) (b : Nat) (btab : List (Int × Nat)) (stream : NTV.Draw.Stream) (fuel : Nat)
     (prof : Profile) (hnw : prof = .dev ∨ x < 2 ^ two64)
     (result : List (Int × Nat)) (count : Nat) (rest : NTV.Draw.Stream)
     (h : factorizeSeq x b stream fuel prof = .ok result count rest ∨
-         factorizePar x b stream fuel prof = .ok result count rest)
+         factorizePar x b btab stream fuel prof = .ok result count rest)
     (hsound : ∀ pe ∈ result, ∀ s₁ s₂ : NTV.Draw.Stream, s₁ <:+ stream →
       NTV.Prime.isPrimeS pe.1 s₁ = some (true, s₂) → Nat.Prime pe.1.toNat) :
     result.map (fun pe => (pe.1.toNat, pe.2)) = NTV.Trial.factorize x.toNat := by
-  refine driver_unique_of_prime_entries x b stream fuel prof hnw result count rest h ?_
+  refine driver_unique_of_prime_entries x b btab stream fuel prof hnw result count rest h ?_
   intro pe hpe
-  obtain ⟨s₁, s₂, h1, _, h3⟩ := (driver_entries_accepted x b stream fuel prof result count rest h).2 pe hpe
+  obtain ⟨s₁, s₂, h1, _, h3⟩ := (driver_entries_accepted x b btab stream fuel prof result count rest h).2 pe hpe
   exact hsound pe hpe s₁ s₂ h1 h3
 
 /-- **Trial division is the unique answer**: any strictly increasing list of (prime, positive
@@ -226,11 +232,16 @@ theorem run12_seq_dev : okResult (factorizeSeq 12 4 (List.replicate 23 zchunk) 1
 theorem run12_seq_release :
     okResult (factorizeSeq 12 4 (List.replicate 23 zchunk) 10 .release) = some [(2, 2), (3, 1)] := by
   decide +kernel
-theorem run12_par_dev : okResult (factorizePar 12 4 (List.replicate 26 zchunk) 10 .dev) = some [(2, 2), (3, 1)] := by
+theorem run12_par_dev : okResult (factorizePar 12 4 [] (List.replicate 26 zchunk) 10 .dev) = some [(2, 2), (3, 1)] := by
   decide +kernel
 theorem run12_par_release :
-    okResult (factorizePar 12 4 (List.replicate 26 zchunk) 10 .release) = some [(2, 2), (3, 1)] := by
+    okResult (factorizePar 12 4 [] (List.replicate 26 zchunk) 10 .release) = some [(2, 2), (3, 1)] := by
   decide +kernel
+
+/-- the per-item bound of the batched driver: 4 up to 1000, `b` for the input, the table otherwise,
+`none` (run dropped as inconclusive) for an item the table does not list -/
+example : parBsel 2006 9 [(1003, 7)] 15 = some 4 ∧ parBsel 2006 9 [(1003, 7)] 2006 = some 9 ∧
+    parBsel 2006 9 [(1003, 7)] 1003 = some 7 ∧ parBsel 2006 9 [] 1003 = none := by decide
 
 /-- 12 < 2^(2^64) without evaluating the power -/
 theorem twelve_lt : (12 : Int) < 2 ^ two64 :=
@@ -242,17 +253,17 @@ example : prodPairs [(2, 2), (3, 1)] = 12 := by
   exact driver_seq_product_release 12 twelve_lt 4 _ 10 _ c r h
 example : prodPairs [(2, 2), (3, 1)] = 12 := by
   obtain ⟨c, r, h⟩ := okResult_some _ _ run12_par_release
-  exact driver_par_product_release 12 twelve_lt 4 _ 10 _ c r h
+  exact driver_par_product_release 12 twelve_lt 4 [] _ 10 _ c r h
 example : ([(2, 2), (3, 1)] : List (Int × Nat)).Pairwise (fun p q => p.1 < q.1) := by
   obtain ⟨c, r, h⟩ := okResult_some _ _ run12_par_dev
-  exact (driver_sorted 12 4 _ 10 .dev _ c r (Or.inr h)).2.1
+  exact (driver_sorted 12 4 [] _ 10 .dev _ c r (Or.inr h)).2.1
 example : ∃ s₁ s₂ : NTV.Draw.Stream, s₁ <:+ List.replicate 23 zchunk ∧ s₂ <:+ s₁ ∧
     NTV.Prime.isPrimeS 3 s₁ = some (true, s₂) := by
   obtain ⟨c, r, h⟩ := okResult_some _ _ run12_seq_dev
-  exact (driver_entries_accepted 12 4 _ 10 .dev _ c r (Or.inl h)).2 (3, 1) (by simp)
+  exact (driver_entries_accepted 12 4 [] _ 10 .dev _ c r (Or.inl h)).2 (3, 1) (by simp)
 example : ([(2, 2), (3, 1)] : List (Int × Nat)).map (fun pe => (pe.1.toNat, pe.2)) = NTV.Trial.factorize 12 := by
   obtain ⟨c, r, h⟩ := okResult_some _ _ run12_seq_release
-  refine driver_unique_of_sound_tests 12 4 _ 10 .release (Or.inr twelve_lt) _ c r (Or.inl h) ?_
+  refine driver_unique_of_sound_tests 12 4 [] _ 10 .release (Or.inr twelve_lt) _ c r (Or.inl h) ?_
   intro pe hpe _ _ _ _
   simp only [List.mem_cons, List.not_mem_nil, or_false] at hpe
   rcases hpe with rfl | rfl
